@@ -1,21 +1,33 @@
 import Rustemo.Proofs.Roundtrip
 import Rustemo.Proofs.LayoutRT
 import Rustemo.Proofs.LayoutRTExample
+import Rustemo.Proofs.LayoutRTLay
+import Rustemo.Proofs.LayoutRTInsertPath
 import Rustemo.Props.C13
 /-!
 # C14 — the generic parse tree is lossless: tokens and layout reconstruct the input
 
 `Tree.flat input t` concatenates, for each leaf of `t` in order, the layout stored before it and the
-token text (both are slices of the input buffer).  Proved for the default string lexer with
-whitespace skipping on or off, any recognizers, partial parsing on or off, every input.
+token text (both are slices of the input buffer).
 
-Under a user Layout rule the identity is proved (`C14_roundtrip_layout`) for every input that passes
-the executable check `LayoutCert.check` (`Model/LayoutCert.lean`; the driver evaluates it per input):
-layout is never parsed where a state of the main automaton finds a token, a second layout parse where
-one ended consumes nothing, and a failing layout parse has not advanced.  Without it the identity is
-FALSE of the code as it is (`C14_counterexample_relex_layout_discarded`,
-`C14_counterexample_failed_layout_advances`: known findings C14-N1, C14-N2); inputs outside the check
-stay decided by oracle + correspondence.
+* `C14_roundtrip` — round trip for the default string lexer with whitespace skipping on or off (no
+  Layout rule), any recognizers, partial parsing on or off, every input.
+* `C14_roundtrip_layout` — round trip under a user Layout rule, for every input that passes the
+  executable check `LayoutCert.check` (`Model/LayoutCert.lean`; the driver evaluates it per input):
+  layout is never parsed where a state of the main automaton finds a token, a second layout parse
+  where one ended consumes nothing, and a failing layout parse has not advanced.  Without it the
+  identity is FALSE of the code as it is (`C14_counterexample_relex_layout_discarded`,
+  `C14_counterexample_failed_layout_advances`: known findings C14-N1, C14-N2); inputs outside the
+  check stay decided by oracle + correspondence.
+* `C14_layout_is_whitespace`, `C14_layout_is_layout_sentence` — what is stored as layout is
+  whitespace / a sentence of the Layout rule tiled by adjacent tokens (no extra hypothesis).
+* `C14_insertion_invariant_path` (= `C14_insertion_statement`), `C14_insertion_invariant` — changing
+  the whitespace between the tokens of an accepted input does not change the tree (kinds,
+  productions, token texts), for the default lexer without a Layout rule.
+
+NOT proved: insertion invariance under a Layout rule (comments inserted between tokens), and the
+derivation of the alignment hypothesis from a syntactic notion of "whitespace-local recognizer"
+(oracle on generated inputs only); the GLR parser.
 -/
 namespace Rustemo.Props.C14
 open Rustemo
@@ -109,5 +121,113 @@ theorem C14_counterexample_failed_layout_advances :
       ExampleLayout.N2.input.take ctx.pos.pos = [97, 40, 32, 98] := by
   refine ⟨by decide +kernel, ?_⟩
   exact flatOf_spec ExampleLayout.N2.env true 100 _ _ (by decide +kernel)
+
+/-- **The stored layout is whitespace** (default skipping, no Layout rule; skipping on or off).
+    `Tree.AllLay P t`: every layout slice stored in `t` satisfies `P`; `WsSlice input s`: the bytes of
+    the slice are a sequence of whole whitespace characters (`char::is_whitespace` in UTF-8, as
+    `wsCharLen` decodes them).  Also for the layout skipped before the end. -/
+theorem C14_layout_is_whitespace (env : Env) (hc : env.custom = none) (hl : env.t.layoutState = none)
+    (partialParse : Bool) (fuel : Nat) (ctx : Ctx) (r : ParseResult)
+    (h : parse env partialParse fuel = (ctx, .ok r)) :
+    r.tree.AllLay (WsSlice env.input) ∧ ∀ s, ctx.lay = some s → WsSlice env.input s :=
+  parse_layout_is_ws env hc hl partialParse fuel ctx r h
+
+/-- what `AllLay` says at a leaf -/
+theorem C14_allLay_leaf (P : Slice → Prop) (k : Nat) (sp : Span) (v s : Slice)
+    (h : (Tree.leaf k sp v (some s)).AllLay P) : P s := h s rfl
+
+/-- non-vacuity: `S: 'a' S | EMPTY` on "a a" stores the blank before the second `a` -/
+example : Example.env.custom = none ∧ Example.env.t.layoutState = none ∧
+    flatOf Example.env false 100 = some ([97, 32, 97], [97, 32, 97]) := by decide +kernel
+
+/-- **The stored layout is a sentence of the Layout rule.**  `LayoutSentence env lsym s`: there are a
+    derivation tree of the grammar with root `lsym` (the symbol of the layout automaton, a nonterminal)
+    and tokens, each a match of its recognizer, adjacent to each other, covering exactly the slice `s`,
+    whose kinds are the tree's yield.  Holds for every accepted parse — also where `LayoutCert.check`
+    fails (there layout may be LOST, but what is stored is still layout). -/
+theorem C14_layout_is_layout_sentence (env : Env) (hc : env.custom = none) (hsk : env.skipWs = false)
+    (ls : Nat) (hl : env.t.layoutState = some ls)
+    (hr : RecogOk env) (hstop : Cert.noShiftStop env.t = true)
+    (hcert : Cert.structural env.g env.t (autosOf env.g env.t) = true)
+    (hau : LayoutCert.autoOk env.g env.t ls = true)
+    (partialParse : Bool) (fuel : Nat) (ctx : Ctx) (r : ParseResult)
+    (h : parse env partialParse fuel = (ctx, .ok r)) :
+    ∃ au ∈ autosOf env.g env.t, au.start = ls ∧ env.g.nterms ≤ au.sym ∧
+      r.tree.AllLay (LayoutSentence env au.sym) ∧
+      ∀ s, ctx.lay = some s → LayoutSentence env au.sym s :=
+  parse_layout_is_sentence env hc hsk hr (C13.noShiftStop_sound _ hstop) ls hl
+    (Cert.structural_sound _ _ _ hcert) hau partialParse fuel ctx r h
+
+/-- non-vacuity (the other hypotheses are those of `C14_roundtrip_layout`, shown above) -/
+example : LayoutCert.autoOk ExampleLayout.Ws.env.g ExampleLayout.Ws.env.t 4 = true := by decide +kernel
+
+/-- **Layout insertion invariance** (default string lexer, no Layout rule, whitespace skipping on or
+    off).  Two inputs are parsed with the same grammar, table and settings.  `Aligned env1 env2 R`:
+    `R` relates the byte offsets of the two inputs at which the lexer looks for tokens (the offsets
+    reached after whitespace skipping: `postSkip`), starting with the first ones, such that at related
+    offsets every recognizer gives the same answer (the match matrix of the second input is the
+    shifted matrix of the first), matched texts are equal, and the offsets reached after any match
+    followed by whitespace skipping are related again.  Then if the first input is accepted so is the
+    second and both trees have the same `Tree.shape` (token kinds, productions, token texts; no
+    positions, no layout); and conversely. -/
+theorem C14_insertion_invariant (env1 env2 : Env) (R : Nat → Nat → Prop)
+    (hc1 : env1.custom = none) (hc2 : env2.custom = none) (hl : env1.t.layoutState = none)
+    (hg : env2.g = env1.g) (ht : env2.t = env1.t) (hlg : env2.longest = env1.longest)
+    (hr1 : RecogOk env1) (hr2 : RecogOk env2) (hstop : Cert.noShiftStop env1.t = true)
+    (hal : Aligned env1 env2 R) (partialParse : Bool) (fuel : Nat) :
+    (∀ ctx1 r1, parse env1 partialParse fuel = (ctx1, .ok r1) →
+      ∃ ctx2 r2, parse env2 partialParse fuel = (ctx2, .ok r2) ∧
+        r1.tree.shape env1.input = r2.tree.shape env2.input) ∧
+    (∀ ctx2 r2, parse env2 partialParse fuel = (ctx2, .ok r2) →
+      ∃ ctx1 r1, parse env1 partialParse fuel = (ctx1, .ok r1) ∧
+        r1.tree.shape env1.input = r2.tree.shape env2.input) := by
+  have hns := C13.noShiftStop_sound _ hstop
+  refine ⟨fun ctx1 r1 h => parse_insertion env1 env2 R hc1 hc2 hl hg ht hlg hr1 hr2 hns hal
+    partialParse fuel ctx1 r1 h, ?_⟩
+  intro ctx2 r2 h
+  obtain ⟨ctx1, r1, h1, hs⟩ := parse_insertion env2 env1 _ hc2 hc1 (by rw [ht]; exact hl) hg.symm ht.symm
+    hlg.symm hr2 hr1 (by rw [ht]; exact hns) hal.symm partialParse fuel ctx2 r2 h
+  exact ⟨ctx1, r1, h1, hs.symm⟩
+
+/-- non-vacuity: `S: 'a' S | EMPTY` on "a a" and on "a  a " (offsets 0~0, 2~3, 3~5) -/
+example : Aligned ExampleLayout.Ins.env1 ExampleLayout.Ins.env2 ExampleLayout.Ins.R ∧
+    RecogOk ExampleLayout.Ins.env1 ∧ RecogOk ExampleLayout.Ins.env2 :=
+  ⟨Ins.aligned, Ins.recogOk1, Ins.recogOk2⟩
+
+example : ExampleLayout.Ins.env1.custom = none ∧ ExampleLayout.Ins.env2.custom = none ∧
+    ExampleLayout.Ins.env1.t.layoutState = none ∧
+    Cert.noShiftStop ExampleLayout.Ins.env1.t = true ∧
+    Example.isOk (parse ExampleLayout.Ins.env1 false 100).2 = true ∧
+    Example.isOk (parse ExampleLayout.Ins.env2 false 100).2 = true := by decide +kernel
+
+/-- The statement at full strength: alignment is asked only ALONG THE TOKENS the first parse shifted
+    (`PathAligned`, tokens in input order, from the offsets where the lexer first looks): each token
+    starts at the current offset of the first input; at that offset and the corresponding one of the
+    second input ALL recognizers give the same answer; the token text is the same; the next pair of
+    offsets is reached by adding the token length and skipping whitespace (`postSkip`) in each input;
+    where the tokens end the recognizers agree once more (end of input / partial-parse stop).  That is
+    "the second input has the same tokens with other whitespace between them, and no recognizer can
+    tell the difference at a token start".  Nothing is asked about matches the parse does not follow. -/
+def C14_insertion_statement : Prop :=
+  ∀ (env1 env2 : Env) (partialParse : Bool) (fuel : Nat) (ctx1 : Ctx) (r1 : ParseResult),
+    env1.custom = none → env2.custom = none → env1.t.layoutState = none →
+    env2.g = env1.g → env2.t = env1.t → env2.longest = env1.longest →
+    RecogOk env1 → RecogOk env2 → Cert.noShiftStop env1.t = true →
+    parse env1 partialParse fuel = (ctx1, .ok r1) →
+    PathAligned env1 env2 r1.hist.reverse (postSkip env1 0) (postSkip env2 0) →
+    ∃ ctx2 r2, parse env2 partialParse fuel = (ctx2, .ok r2) ∧
+      r1.tree.shape env1.input = r2.tree.shape env2.input
+
+/-- **Inserting (or removing, or changing) whitespace between the tokens of an accepted input never
+    changes which tree is built**, up to positions and layout. -/
+theorem C14_insertion_invariant_path : C14_insertion_statement :=
+  fun env1 env2 pp fuel ctx1 r1 hc1 hc2 hl hg ht hlg hr1 hr2 hstop h hal =>
+    parse_insertion_path env1 env2 hc1 hc2 hl hg ht hlg hr1 hr2 (C13.noShiftStop_sound _ hstop)
+      pp fuel ctx1 r1 h hal
+
+/-- non-vacuity: "a a" is accepted and "a  a " is aligned with it along its two tokens -/
+example : ∃ ctx1 r1, parse ExampleLayout.Ins.env1 false 100 = (ctx1, .ok r1) ∧
+    PathAligned ExampleLayout.Ins.env1 ExampleLayout.Ins.env2 r1.hist.reverse
+      (postSkip ExampleLayout.Ins.env1 0) (postSkip ExampleLayout.Ins.env2 0) := Ins.pathAligned
 
 end Rustemo.Props.C14
